@@ -218,6 +218,19 @@ Fixpoint run_journal_d (ord permissive : bool) (pl : pool) (hist held : list apo
   end.
 End WithDeferred.
 
+(* ---- `apply account NAME` .. `end apply account` (textual.cc apply_account_directive: the stack receives
+   top_account()->find_account(NAME); parse_post hands top_account() to journal_t::register_account, which - no alias
+   being in force - returns master_account->find_account(name)): inside the block a posting written `name` belongs to
+   the account  N1:..:Nk:name  (N1 the outermost block), and that account's total is what its `= AMOUNT` consults ---- *)
+Definition qualify (stack : list str) (name : str) : str :=
+  fold_right (fun n acc => n ++ 58 :: acc) name stack.
+
+Definition rename_post (f : str -> str) (p : post) : post :=
+  mkPost (f (p_acct p)) (p_kind p) (p_amt p) (p_cost p) (p_lotprice p) (p_calculated p) (p_generated p) (p_cost_calculated p).
+
+Definition under (stack : list str) (x : list dpost) : list dpost :=
+  map (fun d => mkD (mkW (rename_post (qualify stack) (w_post (d_w d))) (w_assigned (d_w d))) (d_deferred d)) x.
+
 (* rules of the shape  = /^ACCOUNT$/  with lines  [PREFIX$account] MULT  or  [PREFIX] MULT  (a commodity-less amount
    multiplies the matched posting's; xact.cc extend_xact): one generated posting per line for every posting of exactly
    that account which no rule made *)
